@@ -86,7 +86,10 @@ def apply_tlc(s, act):
     elif act[0] == "unreg":
         s.router.unregister_client(s.clients[cidx(act[1])])
     elif act[0] == "enable":
-        s.router.process_message(EnableBLOB(device=act[2], value=act[3]), sender=s.clients[cidx(act[1])])
+        from indi.message import IndiMessage
+
+        m = IndiMessage.from_string(EnableBLOB(device=act[2], value=act[3]).to_string())
+        s.router.process_message(m, sender=s.clients[cidx(act[1])])
 
 
 def impl_state(s):
